@@ -438,9 +438,59 @@ fn execute(b: &Built, exit_mode: u8, mode: RunMode, scratch: &std::path::Path, s
     }
 }
 
+
+/// Many errors in one run: the latest wins after hundreds of them, in a loop and on hundreds of
+/// different lines; the first error after exit_on_error is fatal with its own line however far down.
+fn scale(w: &mut Worker) {
+    let sizes: Vec<usize> = w.tier.pick(vec![300, 3000], vec![300, 3000, 30000]);
+    for &n in &sizes {
+        // a loop raising n errors
+        let text = format!(
+            "i = set 0\nwhile less_than ${{i}} {n}\ni = calc ${{i}} + 1\no = trigger_error \"loop error ${{i}}\"\nend\ne = get_last_error\nl = get_last_error_line\ndone = set yes",
+            n = n
+        );
+        scale_case(w, &format!("errors-in-loop count {}", n), &text, &[("e", Some(format!("loop error {}", n))), ("l", Some("4".into())), ("o", Some("false".into())), ("done", Some("yes".into()))]);
+        // n different failing lines
+        let mut lines: Vec<String> = (1..=n).map(|k| format!("o{} = trigger_error m{}", k % 7, k)).collect();
+        lines.push("e = get_last_error".into());
+        lines.push("l = get_last_error_line".into());
+        lines.push("done = set yes".into());
+        scale_case(w, &format!("errors-on-lines count {}", n), &lines.join("\n"), &[("e", Some(format!("m{}", n))), ("l", Some(n.to_string())), ("done", Some("yes".into()))]);
+        // fatal on line n + 2
+        if !w.take() {
+            continue;
+        }
+        let mut lines: Vec<String> = (1..=n).map(|k| format!("o = trigger_error m{}", k)).collect();
+        lines.push("exit_on_error true".into());
+        lines.push("o = trigger_error fatal".into());
+        lines.push("done = set yes".into());
+        let text = lines.join("\n");
+        let cj = json!({"kind": "scale", "name": format!("fatal-far-down line {}", n + 2), "script": text});
+        w.begin(|| cj.clone());
+        w.add_transitions(1);
+        let ctx = sdk_context();
+        let (env, _o, _e, _h) = quiet_env();
+        match guarded(|| runner::run_script(&text, ctx, Some(env))) {
+            Err(p) => w.fail("scale:panic", &p, cj),
+            Ok(Ok(_)) => w.fail("scale:exit_on_error-did-not-stop", &format!("{} errors, then exit_on_error, then an error: the script ran on", n), cj),
+            Ok(Err(ScriptError::Runtime(m, meta))) => {
+                let line = meta.and_then(|x| x.line);
+                if m == "fatal" && line == Some(n + 2) {
+                    w.pass(true, hash64(&"scale-fatal"));
+                } else {
+                    w.fail("scale:fatal-position", &format!("failure {:?} at line {:?}, expected \"fatal\" at line {}", m, line, n + 2), cj);
+                }
+            }
+            Ok(Err(e)) => w.fail("scale:fatal-kind", &format!("failed with {}", e), cj),
+        }
+    }
+}
+
 pub fn worker(w: &mut Worker) {
     let tier = w.tier;
     w.risky = true;
+    w.set_case_limit_ms(20_000);
+    scale(w);
     w.set_case_limit_ms(1_000);
     let real_msg = {
         let mut s = Session::new();
@@ -494,6 +544,14 @@ pub fn worker(w: &mut Worker) {
 }
 
 pub fn replay(case: &Value) -> Result<String, String> {
+    if case["kind"].as_str() == Some("scale") {
+        let text = case["script"].as_str().unwrap_or("");
+        let (env, _o, _e, _h) = quiet_env();
+        return Ok(match runner::run_script(text, sdk_context(), Some(env)) {
+            Ok(c) => format!("{:?}", sorted_vars(&c.variables).into_iter().filter(|(k, _)| !k.starts_with('o')).collect::<Vec<_>>()),
+            Err(e) => format!("failed: {}", e),
+        });
+    }
     let files: Vec<(String, String)> = case["files"]
         .as_array()
         .ok_or("files")?
@@ -533,7 +591,7 @@ pub fn crash_sig(_case: &Value, kind: &str) -> String {
     kind.to_string()
 }
 
-pub const RULE: &str = "programs: every sequence of 1..k error sites, each site = context {top level, function body, for body, while body, if branch, else branch, inside a script-implemented library command, included file, a function called from a loop, a loop inside a function} x error kind {trigger_error, assert_error with a message containing a space, a real failing command, a message containing the literal text ${x}, a failing script-implemented command} x lines in front of the site {none, a blank line, blank + comment, `set_error` + an `exit_on_error` query (statements that touch the error record and the mode without being errors)}; each site assigns an output variable and is followed by get_last_error / get_last_error_line / get_last_error_source probes; x exit_on_error schedule {never, on from the start, turned on after the first site, on then off before the first site} x run mode {text (included files named by absolute path), file, file that includes the file with the sites}. Oracle (error protocol): output variable 'false'; message, 1-based line and source file of the instruction the runner was executing (the caller's line for the script-implemented command, the included file's own path and line for included code); the latest error wins; the script reaches its last line and the enclosing blocks go on as written (a for body with two elements and a while body run twice, the else branch of an if whose then-branch failed does not run); under exit_on_error the run fails with Runtime(message, line, source) of the first error after it was turned on. evaluations = programs run";
+pub const RULE: &str = "programs: every sequence of 1..k error sites, each site = context {top level, function body, for body, while body, if branch, else branch, inside a script-implemented library command, included file, a function called from a loop, a loop inside a function} x error kind {trigger_error, assert_error with a message containing a space, a real failing command, a message containing the literal text ${x}, a failing script-implemented command} x lines in front of the site {none, a blank line, blank + comment, `set_error` + an `exit_on_error` query (statements that touch the error record and the mode without being errors)}; each site assigns an output variable and is followed by get_last_error / get_last_error_line / get_last_error_source probes; x exit_on_error schedule {never, on from the start, turned on after the first site, on then off before the first site} x run mode {text (included files named by absolute path), file, file that includes the file with the sites}. Oracle (error protocol): output variable 'false'; message, 1-based line and source file of the instruction the runner was executing (the caller's line for the script-implemented command, the included file's own path and line for included code); the latest error wins; the script reaches its last line and the enclosing blocks go on as written (a for body with two elements and a while body run twice, the else branch of an if whose then-branch failed does not run); under exit_on_error the run fails with Runtime(message, line, source) of the first error after it was turned on. Scale cases: 300/3000 (thorough 30000) errors raised in a loop and on as many different lines (the latest wins, with its line), and a fatal error that far down after exit_on_error. evaluations = programs run";
 pub const ASSUMPTIONS: &[&str] = &["the message of the real failing command is taken from running that command alone (differential)", "failing commands are not placed in condition position (an error raised by a condition is outside the property)"];
 pub const EXHAUSTIVE: bool = true;
 pub const WALL_CAP_S: (u64, u64) = (55, 1500);
